@@ -399,7 +399,7 @@ type ListReq struct {
 	HasMarker                     bool
 	MaxKeys                       int // <0 = absent
 	V2                            bool
-	StartAfter                    bool // V2: send marker as start-after instead of continuation-token
+	StartAfter                    bool   // V2: send marker as start-after instead of continuation-token
 	AlsoStartAfter                string // V2 with a continuation token: a start-after sent along with it (as SDK paginators do); the token wins
 }
 
